@@ -80,6 +80,23 @@ func runPgIdent(w *out.W, tier string) {
 			}
 		}
 	}
+	// round 3: every single byte inside the qualifier and inside the name (strconv.Quote, the
+	// model's strconvQuote, byte by byte; a lone byte >= 0x80 is not valid UTF-8: \xHH), and
+	// the shapes of names the other stages draw
+	for b := 1; b < 256; b++ {
+		n++
+		one(fmt.Sprintf("x%d", n), sp("q"+string([]byte{byte(b)})+"z"), s1, "n"+string([]byte{byte(b)}))
+	}
+	for _, shp := range append([]string{"keyword"}, shapeNames()...) {
+		g := &gen{pg: true}
+		q := g.shaped("qz1", shp, "")
+		for _, ns := range []*string{nil, s1, &q} {
+			n++
+			one(fmt.Sprintf("x%d", n), &q, ns, g.shaped("e_a2", shp, "type"))
+			n++
+			one(fmt.Sprintf("x%d", n), nil, ns, g.shaped("e_a3", shp, "type"))
+		}
+	}
 	w.Exhaust = true
 	r := rng.FromEnv(0x1DE7)
 	cnt := 1500
